@@ -182,6 +182,7 @@ class Polygon2D(Base2DIn2D):
             'boundary should be a list. Got {}'.format(type(boundary))
         assert isinstance(hole, list), \
             'hole should be a list. Got {}'.format(type(hole))
+        boundary, hole = list(boundary), list(hole)  # do not edit the input lists
 
         # check that the direction of vertices for the hole is opposite the boundary
         bound_direction = Polygon2D._are_clockwise(boundary)
@@ -224,6 +225,8 @@ class Polygon2D(Base2DIn2D):
                 'hole should be a list. Got {}'.format(type(hole))
             assert len(hole) >= 3, \
                 'hole should have at least 3 vertices. Got {}'.format(len(hole))
+        boundary = list(boundary)  # do not edit the input lists
+        holes = [list(hole) for hole in holes]
 
         # check that the direction of vertices for the hole is opposite the boundary
         bound_direction = cls._are_clockwise(boundary)
